@@ -332,13 +332,27 @@ Theorem model_passes_C08_clause_5 :
 Proof. exact model_passes_C08_clause_5_lemma. Qed.
 Print Assumptions model_passes_C08_clause_5.
 
+(** clause 3 (one-shot contexts: a running, non-repeated context whose batch expires in this
+    end-block is gone afterwards; a non-repeated context never carries a batch number above 1).  From
+    NEW invariant [NR] of Service/ProofsCheck.v, proved over every history: a non-repeated stored
+    context has batch <= 1, and once it has issued its batch it is neither scheduled for another one
+    nor paused (so [start] cannot re-enqueue it); and [end_block_oneshot].  [good_step]: as for
+    clause 1, on a REJECTED end-block (negative time increment) the checker's entry would fail on
+    the model's own observation, because it does not look at the result code. *)
+Theorem model_passes_C08_clause_3 :
+  forall c steps st h0 t0 l0 univ seen fired tr sc pcode pnc pcb,
+    NoDup (create_txhs (steps ++ [st])) -> good_step st ->
+    let s := run c (init h0 t0 l0) steps in
+    holds_C08 seen fired tr sc (obs_of univ pcode pnc pcb s) st (obs_step univ c s st) <> 3.
+Proof. exact model_passes_C08_clause_3_lemma. Qed.
+Print Assumptions model_passes_C08_clause_3.
+
 (** [model_passes_check], PARTIAL, for [check_case_C08] itself (see [model_passes_clauses_C07],
     Props/C07.v, for the reading and the hypotheses): on the case the driver would print for the
-    MODEL, the clause [check_case_C08] answers is never 1, 2, 5, 6, 8 or 9.  NOT covered: clause 3
-    (one-shot contexts), clause 4 (the checker's schedule tracker), clause 7 as a whole (its two
+    MODEL, [check_case_C08] answers (-1, p, k) — no divergence — with k never 1, 2, 3, 5, 6, 8 or 9.
+    NOT covered: clause 4 (the checker's schedule tracker) and clause 7 as a whole (its two
     history-wide lists are [model_passes_C08_clause_7_history]; the step-wise comparison with
-    [expected_cb] is not done).  The correspondence component is -1 over every history:
-    [model_corresponds_to_itself], Props/C07.v. *)
+    [expected_cb] is not done).  So "k = 0" is not a theorem: k is 0, 4 or 7. *)
 Theorem model_passes_clauses_C08 :
   forall c steps h0 t0 l0 univ,
     c_msvc c < 0 -> 0 <= c_tax c -> clean l0 -> NoDup (create_txhs steps) -> Forall good_step steps ->
@@ -347,8 +361,8 @@ Theorem model_passes_clauses_C08 :
        In (TAX, q_fd q) univ /\ In (REQ, q_fd q) univ) ->
     ledger_of (obs_of univ 0 None [] (init h0 t0 l0)) = l0 ->
     forall corr p k, check_case_C08 (model_case univ c h0 t0 l0 steps) = (corr, p, k) ->
-      k <> 1 /\ k <> 2 /\ k <> 5 /\ k <> 6 /\ k <> 8 /\ k <> 9.
-Proof. exact model_passes_clauses_C08_lemma. Qed.
+      corr = -1 /\ k <> 1 /\ k <> 2 /\ k <> 3 /\ k <> 5 /\ k <> 6 /\ k <> 8 /\ k <> 9.
+Proof. exact model_passes_clauses_C08_3_lemma. Qed.
 Print Assumptions model_passes_clauses_C08.
 
 (** The same for ANY configuration — module-served services included, any end-block step — with the
